@@ -1,8 +1,8 @@
 (* extraction of the C18 model (lexer token layer + recursive-descent load) -> Extract/lexmodel.ml *)
 From Coq Require Import Extraction ExtrOcamlBasic.
-From PM Require Import Base.Bytes Base.Outcome Base.ExtractBase Gen.GenLex Model.Lexer.
+From PM Require Import Base.Bytes Base.Outcome Base.ExtractBase Gen.GenLex Model.Lexer Spec.ConfSpec.
 Cd "Extract".
 Extraction "lexmodel.ml" dlib_anchor lex_run lex_all tokens load_stream load conf_init mandatory_ok site_hasline
   outcome_class GenLex.kw_name string_buf_size string_checked string_slack include_refuse_at max_include_depth
-  time_check strtol0 num_rat.
+  time_check strtol0 num_rat map_of map_ok.
 Cd "..".
